@@ -2,8 +2,8 @@
 (* Batched trace validation of recorded sessions of the interactive builder against the machine
    of Interactive.tla.  Traces: sequence of [bver, all, events]; an event is
      [ev |-> "Read", prompt, answer]   one input() call that returned `answer`
-     [ev |-> "Eof", prompt]            one input() call at end of input
-     [ev |-> "EofError"]               ask_interactively raised EOFError
+     [ev |-> "Eof", how, prompt]       one input() call broken off: how = "eof" (end of input) or "interrupt" (Ctrl-C)
+     [ev |-> "EofError", exc]          ask_interactively raised EOFError / KeyboardInterrupt (exc)
      [ev |-> "Return", value]          ask_interactively returned `value`
      [ev |-> "Raise", exc]             it raised something else
    The prompt (last line printed before the read) tells which metric the question is about.
@@ -41,7 +41,9 @@ TRead == /\ HasEv /\ Ev.ev = "Read" /\ st \in {"choose","asking"}
 TEof == /\ HasEv /\ Ev.ev = "Eof" /\ st \in {"choose","asking"}
         /\ \E m \in AskSet(bver, all) : Names(m, Ev.prompt) /\ OpenIfNeeded(m) /\ TextOk(m) /\ cur' = m
         /\ st' = "eof" /\ Consume /\ UNCHANGED <<bver, all, asked, accepted, result>>
+\* the exception that broke the read off (EOFError at end of input, KeyboardInterrupt at Ctrl-C) is the one that leaves the builder
 TEofError == /\ HasEv /\ Ev.ev = "EofError" /\ st = "eof" /\ st' = "done" /\ Consume
+             /\ l > 1 /\ Tr.events[l-1].ev = "Eof" /\ Ev.exc = (IF Tr.events[l-1].how = "interrupt" THEN "KeyboardInterrupt" ELSE "EOFError")
              /\ UNCHANGED <<bver, all, asked, accepted, cur, result>>
 TReturn == /\ HasEv /\ Ev.ev = "Return" /\ st = "choose" /\ asked = AskSet(bver, all)
            /\ Ev.value = PrefixStr(VerOf(bver), MinorOfB(bver)) \o Join(accepted, "/")
